@@ -22,7 +22,7 @@ def run(ctx, replay=None):
                 "classes of the real formulas on a radius x spacing lattice incl. 0 and sub-core radii, 3 dislocation characters, both J models. (D) coupled "
                 "PrecipitateModel + StrengthModel + GrainGrowthModel runs (1-3 solve calls, both iterators): per host step strength history length = n+1, grain "
                 "clock = host clock, grain volume = 1, PSD finite; mean grain size non-decreasing without pinning; judged by Equiv.tla.")
-    ctx.assumptions = ["superposition exponent 1 in the exact part", "mixed/edge/screw reductions and real-valued monotonicity are not decided here"]
+    ctx.assumptions = ["superposition exponent 1 in the exact part; other exponents and the mixed -> edge / screw reductions enter as comparison classes (Relations.tla; reductions at rtol 2e-3, the mixed formulas carry rounded constants)"]
     # (A)
     cfg = T.write_cfg("strength_mc", ["INIT Init", "NEXT Next", "CONSTANTS", '  OrowanRule = "%s"' % OROWAN_RULE, "  NB = 2",
                                       "INVARIANT InvNonNegative", "INVARIANT InvMinRule", "INVARIANT InvTotal", "INVARIANT InvDrag"])
@@ -73,6 +73,22 @@ def run(ctx, replay=None):
             sub = "subcore" if 0 < 2 * row["r"] < 2.5e-10 else "other"
             ctx.violation("strength-formula:%s:%s" % (",".join(sorted(set(badc))), sub),
                           "strength formulas at r=%g Ls=%g theta=%s J=%s give classes %s" % (row["r"], row["Ls"], row["theta"], row["J"], {k: row[k] for k in ("orowan", "prec", "total")}), {"row": row})
+    # (C') superposition exponents other than 1
+    sev = D.superposition_relations(ctx.rng, ctx.tier)
+    red = D.reduction_relations()            # mixed-dislocation formulas at 90 / 0 degrees against the edge / screw formulas, both J models
+    if len(red) < 50 and red[-1]["e"] != "exception":
+        raise MachineryError("vacuity: only %d reduction relations" % len(red))
+    sev = sev + red[1:]
+    reached_s, rs = T.validate("Relations", [], [sev], "c18_superposition")
+    ctx.add_tlc(rs, "Relations over the superposition cases")
+    if rs.violated or reached_s is None:
+        raise MachineryError("Relations failed (superposition)")
+    ctx.replayed += len(sev) - 1
+    ctx.case("superposition-exponents", nontrivial=len(sev) > 50, sample={"events": sev[1:3]})
+    if reached_s[0]["l"] != len(sev) + 1:
+        ctx.violation("strength-superposition:trace-not-consumed", "superposition relations not consumed", {})
+    for f in reached_s[0]["fails"]:
+        ctx.violation("strength-superposition:%s" % f[0], "total strength: %s violated at %s (observed %s, stated %s)" % (f[0], f[1], f[2], f[3]), {"fail": f})
     # (D)
     base = dict(phases=[dict(name="beta", gamma=0.05)], D=1e-16, cap=200)
     cfgs = [dict(base, tag="coupled-euler-2calls", calls=[(20.0, 0.02), (30.0, 0.02)], iter="euler"),
